@@ -153,7 +153,7 @@ fn serve(pty: Pty, on: Arc<AtomicBool>, alive: Arc<AtomicBool>) {
 }
 
 async fn wait_until<F: Fn(&Shared) -> bool>(ctl: &Ctl, f: F) -> bool {
-    for _ in 0..1500 {
+    for _ in 0..6000 {
         if f(&ctl.lock().unwrap()) {
             return true;
         }
@@ -266,7 +266,7 @@ async fn run_case(line: &str, case_no: usize) -> String {
             }
             "done" => {
                 let mut fin = false;
-                for _ in 0..1500 {
+                for _ in 0..6000 {
                     if jh.is_finished() {
                         fin = true;
                         break;
